@@ -69,7 +69,15 @@ func cmdList(args []string) {
 	w := load(*repo, *spec)
 	for _, fn := range w.FuncsWithContracts() {
 		fc := w.ContractOf(fn)
-		fmt.Printf("%-70s props=%v\n", vc.FnDisplay(fn), fc.Props)
+		status := "verified"
+		if fc.Trusted != "" {
+			status = "TRUSTED (assumed)"
+		}
+		extra := ""
+		if len(fc.Assumes) > 0 {
+			extra = fmt.Sprintf(" +%d entry assumption(s)", len(fc.Assumes))
+		}
+		fmt.Printf("%-70s props=%v %s%s\n", vc.FnDisplay(fn), fc.Props, status, extra)
 	}
 }
 
